@@ -195,7 +195,7 @@ def mesh_edges(faces):
 
 def ugrid(mesh='tq', *, start_index=0, fill='nan', transposed=False, with_edges=None,
           edge_dimension_attr=True, supply=(), node_x=None, node_y=None, face_xy=None,
-          data_vars=None, attrs=None, coords_as_coords=False, dtype='int32', edge_order=None, fill_value=None, edge_face_fill_first=False, edge_marker=True, start_index_by_table=None, start_index_as_text=False):
+          data_vars=None, attrs=None, coords_as_coords=False, dtype='int32', edge_order=None, fill_value=None, edge_face_fill_first=False, edge_marker=True, start_index_by_table=None, start_index_as_text=False, transposed_tables=None):
     """UGRID 2-D mesh.
 
     fill: 'nan' (float connectivity with NaN, as xarray decodes _FillValue),
@@ -250,7 +250,8 @@ def ugrid(mesh='tq', *, start_index=0, fill='nan', transposed=False, with_edges=
             out = arr.astype(dtype)
             enc = {}
         dims = (primary, secondary)
-        if transposed:
+        if transposed != (name in (transposed_tables or ())):
+            # (transposed_tables: tables stored the other way round than the rest)
             out = out.T
             dims = (secondary, primary)
         da = xarray.DataArray(out, dims=dims, attrs=at, name=name)
@@ -261,9 +262,9 @@ def ugrid(mesh='tq', *, start_index=0, fill='nan', transposed=False, with_edges=
                       node_coordinates='node_x node_y', face_node_connectivity='face_node')
     variables = {}
     variables['face_node'] = conn(faces, maxn, 'nface', 'nmax', 'face_node', dict(cf_role='face_node_connectivity'))
-    if with_edges and (edge_dimension_attr or transposed):
+    if with_edges and (edge_dimension_attr or transposed or transposed_tables):
         mesh_attrs['edge_dimension'] = 'nedge'
-    if transposed:
+    if transposed or transposed_tables:
         # UGRID: the *_dimension attributes are required when connectivity is stored transposed
         mesh_attrs['face_dimension'] = 'nface'
     if 'edge_node' in supply:
